@@ -12,6 +12,28 @@ use crate::verif_kani::spec_prims as sp;
 use crate::verif_kani::vk::*;
 use generic_array::typenum::U2 as TU2;
 
+/// reference stub for `derive_3dh_keys` (≡ by s11_derive_3dh_keys[_external]): the three Diffie-Hellman values through the
+/// very same `SecretKey` calls (so an external key's failure propagates identically), then RFC 9807 DeriveKeys
+pub(crate) fn stub_derive_3dh_keys<D: Hash, KG: KeGroup, S: SecretKey<KG>>(
+    dh: TripleDhComponents<KG, S>,
+    hashed_derivation_transcript: &[u8],
+) -> Result<TripleDhDerivationResult<D>, ProtocolError<S::Error>>
+where
+    D::Core: ProxyHash,
+    <D::Core as BlockSizeUser>::BlockSize: IsLess<U256>,
+    Le<<D::Core as BlockSizeUser>::BlockSize, U256>: NonZero,
+{
+    let d1 = dh.sk1.diffie_hellman(dh.pk1).map_err(InternalError::into_custom)?;
+    let d2 = dh.sk2.diffie_hellman(dh.pk2)?;
+    let d3 = dh.sk3.diffie_hellman(dh.pk3).map_err(InternalError::into_custom)?;
+    let k = spec::derive_keys(&d1, &d2, &d3, hashed_derivation_transcript);
+    Ok((
+        GenericArray::clone_from_slice(&k.session_key),
+        GenericArray::clone_from_slice(&k.km2),
+        GenericArray::clone_from_slice(&k.km3),
+    ))
+}
+
 fn pk_of(v: u8) -> PublicKey<G241> {
     PublicKey::<G241>::deserialize(&[PK_TAG, v]).unwrap()
 }
@@ -98,11 +120,11 @@ fn ke2_case(ctx: &[u8], idu_explicit: bool) {
     check!(eq_bytes(&msg[32..34], &spec::ke_public(esk)), "server ephemeral key = DeriveDiffieHellmanKeyPair(fresh seed)");
     let mut l2 = [0u8; 75];
     l2[0] = beta;
-    l2[1..33].copy_from_slice(&masking_nonce);
-    l2[33..75].copy_from_slice(&masked);
+    put(&mut l2[1..33], &masking_nonce);
+    put(&mut l2[33..75], &masked);
     let mut ke1full = [0u8; 35];
     ke1full[0] = blinded;
-    ke1full[1..35].copy_from_slice(&ke1);
+    put(&mut ke1full[1..35], &ke1);
     let id_u: &[u8] = if idu_explicit { &idb[..1] } else { &cpkb };
     let pre = spec::preamble(ctx, id_u, &ke1full, &spkb, &l2, &msg[0..32], &msg[32..34]);
     let w = spec::server_ke(pre, esk, ssk, &ke1[32..34], &cpkb);
@@ -149,11 +171,11 @@ fn ke3_case(ctx: &[u8], idu_explicit: bool) {
     );
     let mut l2 = [0u8; 75];
     l2[0] = beta;
-    l2[1..33].copy_from_slice(&masking_nonce);
-    l2[33..75].copy_from_slice(&masked);
+    put(&mut l2[1..33], &masking_nonce);
+    put(&mut l2[33..75], &masked);
     let mut ke1full = [0u8; 35];
     ke1full[0] = blinded;
-    ke1full[1..35].copy_from_slice(&ke1);
+    put(&mut ke1full[1..35], &ke1);
     let id_u: &[u8] = if idu_explicit { &idb[..1] } else { &cpkb };
     let pre = spec::preamble(ctx, id_u, &ke1full, &spkb, &l2, &ke2[0..32], &ke2[32..34]);
     let w = spec::client_ke(pre, ke1st[0], csk, &ke2[32..34], &spkb, &ke2[34..42]);
@@ -228,4 +250,15 @@ harnesses! {
             cover!(true, "ok");
         }
     }
+
+    // S10 wiring: generate_ke2 / generate_ke3 with derive_3dh_keys replaced by its reference stub (≡ by S11): what is
+    // decided is the transcript (preamble) construction, the MAC computations and checks, randomness and state assembly
+    #[cfg_attr(kani, kani::stub(crate::key_exchange::tripledh::derive_3dh_keys, crate::key_exchange::tripledh::verif_kani_tripledh::stub_derive_3dh_keys))]
+    fn s10w_generate_ke2_ctx0_default_ids [unwind = 46] { ke2_case(&[], false); }
+    #[cfg_attr(kani, kani::stub(crate::key_exchange::tripledh::derive_3dh_keys, crate::key_exchange::tripledh::verif_kani_tripledh::stub_derive_3dh_keys))]
+    fn s10w_generate_ke2_ctx2_explicit_idu [unwind = 46] { let c = any_bytes::<2>(); ke2_case(&c, true); }
+    #[cfg_attr(kani, kani::stub(crate::key_exchange::tripledh::derive_3dh_keys, crate::key_exchange::tripledh::verif_kani_tripledh::stub_derive_3dh_keys))]
+    fn s10w_generate_ke3_ctx0_default_ids [unwind = 46] { ke3_case(&[], false); }
+    #[cfg_attr(kani, kani::stub(crate::key_exchange::tripledh::derive_3dh_keys, crate::key_exchange::tripledh::verif_kani_tripledh::stub_derive_3dh_keys))]
+    fn s10w_generate_ke3_ctx2_explicit_idu [unwind = 46] { let c = any_bytes::<2>(); ke3_case(&c, true); }
 }
